@@ -56,7 +56,7 @@ func c22Values(fs *Facts) {
 	fs.Raw("valStore", "[]", "", gw)
 	fs.Raw("valRead", "[]", "", gw)
 	fs.Raw("valDec", "[]", "", sdk)
-	for _, n := range []string{"valTablesRecognised", "timeAsUnixSeconds", "structValueEncoded", "bodySkipsNil", "emptyLenZero", "emptyNegZero"} {
+	for _, n := range []string{"valTablesRecognised", "timeAsUnixSeconds", "structValueEncoded", "bodySkipsNil", "emptyLenZero", "emptyNegZero", "voidClearsContent"} {
 		fs.Tri(n, Unknown, sdk)
 	}
 	fh, err1 := Load(sdk)
@@ -301,6 +301,19 @@ func c22Values(fs *Facts) {
 			fs.Tri("emptyNegZero", TriOf(strings.Contains(src, "(value.Kind() == reflect.Float64 && value.Float() == 0)")), sdk+":"+itoa(fh.Line(fd)))
 		}
 	}
+	// server: does SetContentVoid replace a typed content?
+	if ft, err := Load("app/core/hydra/swamp/treasure/treasure.go"); err == nil {
+		if fd := ft.Func("treasure", "SetContentVoid"); fd != nil && fd.Body != nil {
+			clears := false
+			for _, st := range fd.Body.List { // an unconditional, top-level replacement of the content
+				if as, ok := st.(*ast.AssignStmt); ok && len(as.Lhs) == 1 && ft.Str(as.Lhs[0]) == "t.treasure.Content" &&
+					strings.HasPrefix(ft.Str(as.Rhs[0]), "&Content{ Void: true") {
+					clears = true
+				}
+			}
+			fs.Tri("voidClearsContent", TriOf(clears), "app/core/hydra/swamp/treasure/treasure.go:"+itoa(ft.Line(fd)))
+		}
+	}
 	_ = token.NoPos
 }
 
@@ -309,7 +322,7 @@ func c22ValueDefaults(fs *Facts) {
 	fs.Raw("valStore", "[]", "", "")
 	fs.Raw("valRead", "[]", "", "")
 	fs.Raw("valDec", "[]", "", "")
-	for _, n := range []string{"valTablesRecognised", "timeAsUnixSeconds", "structValueEncoded", "bodySkipsNil", "emptyLenZero", "emptyNegZero"} {
+	for _, n := range []string{"valTablesRecognised", "timeAsUnixSeconds", "structValueEncoded", "bodySkipsNil", "emptyLenZero", "emptyNegZero", "voidClearsContent"} {
 		fs.Tri(n, Unknown, "")
 	}
 }
